@@ -212,6 +212,71 @@ def run(ctx):
                 i = j
             else:
                 i += 1
+    # ---- the SAME callable registered several times (each registration is a listener of its own, at its own
+    # place in the registration order), in each of the four groups
+    for early in (False, True):
+        for outgoing in (False, True):
+            calls = []
+            cfg = {'version': V, 'script': [('success',), ('keepalive', 5)]}
+            with simnet.Net(lambda s: RefServer(s, cfg)) as net:
+                conn = C.Connection('h', 1, username='u', allowed_versions={V}, handle_exception=lambda e, i: calls.append(('EXC', repr(e))))
+                KA = sb.play.KeepAlivePacket if outgoing else cb.play.KeepAlivePacket
+                OTHER = sb.play.ChatPacket if outgoing else cb.play.ChatMessagePacket
+
+                def f(pkt):
+                    if isinstance(pkt, P.AbstractKeepAlivePacket):
+                        calls.append('f')
+
+                def g(pkt):
+                    calls.append('g')
+                    if early:
+                        raise IgnorePacket
+                conn.register_packet_listener(f, OTHER, early=early, outgoing=outgoing)     # registration 1: no match
+                conn.register_packet_listener(g, KA, early=early, outgoing=outgoing)        # registration 2
+                conn.register_packet_listener(f, KA, early=early, outgoing=outgoing)        # registration 3: same callable
+                conn.register_packet_listener(f, P.AbstractKeepAlivePacket, early=early, outgoing=outgoing)   # registration 4
+                conn.connect()
+                net.run_threads()
+            ctx.case(('same-callable', early, outgoing))
+            # early: g (registered before f's matching registrations) ignores the packet -> f never runs;
+            # otherwise g, then f once per matching registration
+            want = ['g'] if early else ['g', 'f', 'f']
+            if calls != want:
+                ctx.violation('%s %s listeners, one callable registered three times (types: unrelated, KeepAlive, abstract '
+                              'KeepAlive) around another listener: calls %r, registration order gives %r'
+                              % ('early' if early else 'ordinary', 'outgoing' if outgoing else 'incoming', calls, want),
+                              {'early': early, 'outgoing': outgoing, 'calls': calls}, key={'kind': 'same-callable', 'early': early, 'outgoing': outgoing})
+    # ---- an early listener that ignores Set Compression suppresses the built-in reaction: compression stays
+    # off, and it is still off while the early listener runs
+    for state in ('login',):
+        seen = []
+        cfg = {'version': V, 'script': [('compress', 64), ('success',)]}
+        with simnet.Net(lambda s: RefServer(s, cfg)) as net:
+            conn = C.Connection('h', 1, username='u', allowed_versions={V}, handle_exception=lambda e, i: seen.append(('EXC', type(e).__name__)))
+
+            def early_l(pkt):
+                seen.append(('early', conn.options.compression_enabled, conn.options.compression_threshold))
+                raise IgnorePacket
+            conn.register_packet_listener(early_l, cb.login.SetCompressionPacket, early=True)
+            orig_react2 = C.Connection._react
+
+            def _react2(self, packet):
+                r = orig_react2(self, packet)
+                if isinstance(packet, cb.login.SetCompressionPacket):
+                    seen.append(('after', self.options.compression_enabled, self.options.compression_threshold))
+                return r
+            C.Connection._react = _react2
+            try:
+                conn.connect()
+                net.run_threads()
+            finally:
+                C.Connection._react = orig_react2
+        ctx.case(('ignored-set-compression', state))
+        first = [x for x in seen if x[0] in ('early', 'after')][:2]
+        if first != [('early', False, -1), ('after', False, -1)]:
+            ctx.violation('Set Compression ignored by an early listener: compression (enabled, threshold) seen by the early '
+                          'listener and after the dispatch: %r; the built-in reaction must not have run' % (first,),
+                          {'seen': repr(seen)[:200]}, key={'kind': 'ignored-set-compression'})
     for line, mo, g in zip(lines, ctx.driver.ask(lines), impl):
         if mo.rstrip() != g:
             ctx.disagree('listener dispatch', line[-200:], mo, g)
